@@ -550,9 +550,6 @@ impl Predictor {
             .as_ref()
             .expect("this predictor is created with predict_tags = false");
 
-        if self.data.n_tags == 0 {
-            return;
-        }
         let mut scores = vec![];
         let mut range_start = Some(0);
         sentence.n_tags = self.data.n_tags;
